@@ -271,6 +271,31 @@ CHECKS = {
 PENDING_REASON = "check not built yet in this round (planned: see DESIGN.md §4); not claimed until its monitor runs"
 
 
+# workloads added in the later seeding rounds (DESIGN.md section 11, rounds 5-8)
+LATER = {
+    "C01": " Later additions: frame objects re-decoded after in-place changes; shards alternate the order in which the library's packages are imported.",
+    "C02": " Later additions: copies (copy / deepcopy / pickle) of every 16th object are the same command; equal-but-not-identical 'MASK' / 'OFF' strings.",
+    "C03": " Later additions: flags read from every constructed object and its copies; unassigned neighbours of no-parameter special commands; decoding under a foreign device type is recorded, not judged.",
+    "C04": " Later additions: int-like and reassigned numbers, objects read from a frame changed by their reader, copies, target frames assembled from pieces.",
+    "C05": " Later additions: `+=`, copies inside the histories, falsy slice steps, zero operands.",
+    "C06": " Later additions: every text route (repr, %-formatting, format, f-strings), copies carry the same bus outcome, accessors re-read after the wrapped frame was rewritten.",
+    "C07": " Later additions: the sequence closed at a random point of its run; the application's own argument object passed to several runs.",
+    "C08": " Later additions: sequences closed part-way, set-like argument shapes, lists of up to 254 device types, every kind of destination for the adversarial streams.",
+    "C09": " Later additions: edge-pattern reads of every value (all 256 bytes / all pairs of edge bytes), reads of latch-less banks write nothing, sequences closed part-way.",
+    "C10": " Later additions: numbers and values of the wrong kind, raw arguments that are no byte strings, histories through write() with a strict re-lock.",
+    "C11": " Later additions: enclosing / lock-byte / scattered overlaps in declarations.",
+    "C12": " Later additions: sparse and contradicting maps for the schemes that carry the type, import-surface probe for the event classes.",
+    "C13": " Later additions: rescans with preloaded mappers, sequences closed part-way, every non-scheme number, width asked of the base class first.",
+    "C14": " Later additions: sequences closed part-way.",
+    "C15": " Later additions: misbehaving listeners, callers refused before connect(), repeated losses under a reconnect limit, write-would-block windows with a busy-loop monitor, slow SCI confirmations, the application's own disconnect() in the pass of a report (judged only for completion and locks), ignored cancellations.",
+    "C16": " Later additions: hat sessions with relayed foreign lines, stale SCI status reports, bursts inside a transaction, twin gateways, late answers.",
+    "C17": " Later additions: transient write errors (BlockingIOError) followed by 300 sends, handshake write errors, re-opens failing with varying errno, a second reconnection round after 'failed', connect() retried against a serial gateway that was silent at first, sequences with a failing clean-up across a loss.",
+    "C18": " Later additions: UniPi register model (wrapping reception counter), daliserver sessions, hasseb report shapes, legacy hasseb mixed packet kinds, SCI error reports, a connect() that times out against a model that answered everything is a violation.",
+    "C19": " Later additions: message-aligned reads, every field of the LUBA device information at its extremes.",
+    "C20": " Later additions: every query class of parts 102 / 103 with any answer byte, pending commands reported during the handshake, chained transactions, one callable subscribed twice, the instance map assigned after connect() or learning mid-traffic.",
+}
+
+
 def main():
     props = [json.loads(l)["id"] for l in open(os.path.join(ROOT, "properties.jsonl"))]
     checks = []
@@ -286,7 +311,7 @@ def main():
             "replay_cmd_template": f"./check {pid} --replay {{path}}",
             "engine": "vlib",
             "level_claimed": {"category": c["cat"], "text": c["text"], "design_ref": c["ref"]},
-            "level_note": c["note"],
+            "level_note": c["note"] + LATER.get(pid, ""),
             "technique": c["tech"],
         })
     man = {
